@@ -1236,7 +1236,10 @@ impl ManageConnection for ServerPool {
 
     /// Synchronously determine if the connection is no longer usable, if possible.
     fn has_broken(&self, conn: &mut Self::Connection) -> bool {
-        conn.is_bad()
+        // A connection that comes back without a successful `checkin_cleanup`
+        // (the client task errored out or panicked) is closed instead of reused.
+        // Mirror connections are returned between messages and keep their state.
+        conn.is_bad() || (self.address.role != Role::Mirror && conn.is_dirty())
     }
 }
 
